@@ -255,7 +255,7 @@ pub fn run() {
     ctx.set("distinct_nontrivial", all.accepted);
     ctx.set("rule", "every enumerated text the parser accepts is rendered with Display (whole Asm, and each Line on its own inside a program that keeps the definitions) and parsed again; the result must be the identical Asm / Line (PartialEq); distinct_nontrivial = accepted texts that went through the round trip");
     ctx.set("exhaustive", true);
-    ctx.set("bounds", "C03's sentence / line-shape / label-rule families; all 256 byte values in 5 spellings through 10 operand positions; word boundary values in 3 bases; 16 comment strings in every comment position incl. the header; labels of length 1..60 in 3 letter cases; 2-3 line programs out of the reduced instruction shapes; the repository's programs");
+    ctx.set("bounds", "C03's sentence / line-shape / label-rule families; all 256 byte values in 5 spellings through 10 operand positions; word boundary values in 3 bases; 16 comment strings in every comment position incl. the header; labels of length 1..60 in 3 letter cases; 2-3 line programs out of the reduced instruction shapes; long texts (up to 20 000 lines); the repository's programs; thorough: all short strings, mutated repository programs, C02's layout programs");
     ctx.set("lines_round_tripped", all.lines);
     let mut fj = Json::obj();
     for (k, v) in fam {
